@@ -256,8 +256,6 @@ func (t *Task) Tag(tagName string) string {
 
 // Execute executes the task (the shell command or go function in CustomExecute)
 func (t *Task) Execute() {
-	defer close(t.Done)
-
 	// Do some sanity checks
 	verifPoint("exec.start", verifTaskKeys(t)...)
 	if t.tempDirsExist() {
@@ -267,7 +265,7 @@ func (t *Task) Execute() {
 	if t.anyOutputsExist() {
 		verifPoint("exec.skip", t.TempDir())
 		t.drainStreamingInputs()
-		t.Done <- 1
+		t.signalDone()
 		return
 	}
 	verifPoint("exec.before_acquire", t.TempDir())
@@ -309,7 +307,15 @@ func (t *Task) Execute() {
 	t.workflow.DecConcurrentTasks(t.cores)
 	verifPoint("exec.released", t.TempDir())
 
+	t.signalDone()
+}
+
+// signalDone tells the process that the task has finished, and closes the Done
+// channel. It is called on the normal returns of Execute only (not deferred), so
+// that a panic unwinding through Execute is never taken for a finished task.
+func (t *Task) signalDone() {
 	t.Done <- 1
+	close(t.Done)
 }
 
 // ------------------------------------------------------------------------
